@@ -45,6 +45,31 @@ CHECKS = [
       level_note="Bounded domain (edge-value sets for 64-bit fields, names <= 2 bytes over {a, NUL, /, 0xFF}, <= 3 outputs, <= 2 strings). No claim of unbounded injectivity.",
       technique="TLA+ function-level spec (round trip checked by TLC) + byte-for-byte comparison with the implementation"),
 ]
+
+BS_NOTE = ("Trusted base: TLC; the transcription of the build-system rules in spec/BuildSystem.tla (DESIGN.md Appendix E) - cross-checked on every "
+           "validated history, where each database row, callback and file content the real system produced must equal what the specification computes; "
+           "the generated command bodies (tools/bslib.py) as the meaning of 'deterministic command'; bounded description families and history lengths in the "
+           "exhaustive configurations; implementation histories are sampled (seeded) and each one is validated completely. One action of the specification = "
+           "one build under the canonical schedule; the interleavings inside a build are the engine-level properties C01-C07.")
+def bs(pid, text, technique):
+    return dict(property_id=pid, quick_cmd="./tools/check %s --tier quick" % pid, thorough_cmd="./tools/check %s --tier thorough" % pid,
+                evidence_file="/verif/evidence/%s.json" % pid, replay_cmd_template="./tools/check %s --replay {path}" % pid,
+                engine="tlc+bs_driver", level_claimed=dict(category="model_checking", text=text, design_ref="DESIGN.md §4.1, §7 " + pid),
+                level_note=BS_NOTE, technique=technique)
+CHECKS += [
+ bs("C08", "OutputsClean (every file output reachable from the built key equals the content the independent CleanText oracle derives from the source files) and SeenCurrent are TLC invariants of BuildSystem.tla over description families with chains, multi-output commands, phony aggregators, discovered headers and description switches (command changed, rewired, removed so that a produced node becomes a source) x histories of edits, deletions, tampering, node builds and new frontends; generated descriptions and histories are executed by the real BuildSystemFrontend in sandboxes and every observation (needs-to-run callbacks with reasons, command starts/finishes, result, file contents, every database row) must match the build the specification computes, OutputsClean being evaluated on every validated build.",
+    "TLA+ spec (BuildSystem.tla) model-checked with TLC + trace validation of real BuildSystemFrontend histories"),
+ bs("C09", "NullBuildRunsNothing and NoSpuriousRerun (a command that ran had a changed input cone, definition or output) are TLC invariants; in trace validation the set of executed commands and each reported reason must equal the specification's, whose SignatureChanged decision is taken on the tuple of signature-relevant fields; single-attribute edits (arguments, environment, inputs, outputs, deps style, flags, explicit signature, list-boundary moves) and restarts are generated; the signatures stored in the database must be in bijection with the specification's signature tuples across all frontends of a history.",
+    "TLA+ spec model-checked with TLC + trace validation (executed set, reasons, recorded signatures)"),
+ bs("C10", "FailureStops (no non-phony consumer of a failed or skipped command runs; the build reports failure) and FailureRetried are TLC invariants; convergence after repair is OutputsClean on histories that remove the failure marker; bodies fail before or after writing their outputs, dependency files may be malformed, inputs may be missing; serial and 4-lane execution; every validated history compares statuses, propagated-failure values and the next build's executions with the specification.",
+    "TLA+ spec model-checked with TLC + trace validation with failing command bodies"),
+ bs("C11", "Discovered dependencies are part of the recorded dependency list in BuildSystem.tla (requests followed by discovered nodes, brought up to date after the command); OutputsClean/SeenCurrent over histories that edit, delete and create discovered headers are TLC invariants; generated bodies write Makefile-style and dependency-info files naming paths with spaces, '#', '$', backslashes, colons, relative to the working directory; the database rows must list exactly those node keys byte for byte, and malformed files must fail the command.",
+    "TLA+ spec model-checked with TLC + trace validation with generated dependency files"),
+ bs("C12", "A directory input's value is the TreeObs/StructObs observation of the specification (own info, visible names, child infos, recursively; names and types only for structure inputs; exclusion patterns applied per name); SeenCurrent and NoSpuriousRerun are TLC invariants over trees of depth 3 with every single edit (add, remove, retype, content, touch; hidden names) for plain, filtered and structure inputs; sandboxes apply random tree edits (including renames) between builds and the executed set and epochs must match.",
+    "TLA+ spec model-checked with TLC + trace validation over edited directory trees"),
+ bs("C14", "StaleOnlyObsolete and StaleAllObsolete are TLC invariants over all (previous expected list, current list, roots) combinations of a path family with shared prefixes, trailing separators, relative paths and roots outside the tree, across new frontends with and without the database; in sandboxes the removal notes and the file system after the build must equal the specification's RemoveTree results; the path predicate itself is checked exhaustively at function level (spec/fn/PathPrefix.tla).",
+    "TLA+ spec model-checked with TLC + trace validation + TLC-enumerated prefix cases replayed through pathIsPrefixedByPath"),
+]
 NA = []
 claimed = {c["property_id"] for c in CHECKS}
 for i in range(1, 21):
@@ -55,7 +80,8 @@ m = dict(version=1, setup_cmd="./tools/setup",
          hooks=dict(guard="LLBUILD_VERIF", enable="tools/build.sh configures an out-of-tree build of /repo in /verif/.build/<variant> with -DCMAKE_CXX_FLAGS=-DLLBUILD_VERIF",
                     baseline_off_cmd="/verif/tools/baseline_off.sh", source_commits=HOOK_COMMITS, add_only=True),
          engines=[dict(name="tlc", path="/opt/veriftools/tla/tla2tools.jar", serves_properties=sorted(claimed), kind_free_text="TLC model checker on spec/*.tla (exhaustive configurations and trace validation)"),
-                  dict(name="engine_driver", path="/verif/harness/engine_driver.cpp", serves_properties=["C01","C02","C03","C04","C05","C06","C07"], kind_free_text="scripted-program client of core::BuildEngine that records every API event as ndjson")],
+                  dict(name="engine_driver", path="/verif/harness/engine_driver.cpp", serves_properties=["C01","C02","C03","C04","C05","C06","C07"], kind_free_text="scripted-program client of core::BuildEngine that records every API event as ndjson"),
+                  dict(name="bs_driver", path="/verif/harness/bs_driver.cpp", serves_properties=["C08","C09","C10","C11","C12","C14"], kind_free_text="BuildSystemFrontend client: executes generated descriptions and histories in sandboxes and records callbacks, database rows and file-system changes as ndjson")],
          checks=CHECKS, not_applicable=NA,
          notes="Every check rebuilds /repo's working tree out of tree with the hooks enabled (tools/build.sh), runs TLC on the property's configuration of the specification, runs the real code and validates its recorded traces against the specification. Known findings: known_findings.jsonl.")
 json.dump(m, open("/verif/MANIFEST.json", "w"), indent=1)
